@@ -9,5 +9,4 @@ INVARIANT OrderInv
 INVARIANT ShapeInv
 INVARIANT StageFromSlot
 INVARIANT ParseInv
-INVARIANT ChecksumInv
 CHECK_DEADLOCK FALSE
